@@ -14,6 +14,7 @@ import json
 import os
 import random
 import re
+import shutil
 import subprocess
 import threading
 from vlib.common import *
@@ -260,8 +261,39 @@ GOOD_POS = {   # (line, character) on identifiers of the workspace files
     "b.vhd": [(4, 21), (5, 10), (5, 15), (6, 10), (9, 4), (12, 10), (13, 12), (14, 7), (15, 12), (16, 25),
               (22, 2), (23, 22), (23, 40), (2, 10)],
     "err.vhd": [(0, 8), (1, 30), (4, 18), (7, 2), (8, 10), (11, 20), (12, 5), (12, 12)],
-    "outside.vhd": [(0, 8)],
+    "outside.vhd": [(0, 8), (3, 13), (3, 18), (4, 9), (6, 2)],
+    "new_file.vhd": [(0, 8), (3, 13), (3, 18), (4, 9), (6, 2)],
+    "zz.vhd": [(0, 8), (3, 13), (3, 18), (4, 9), (6, 2)],
+    "x.vhd": [(0, 8), (3, 13), (3, 18), (4, 9), (6, 2)],
 }
+# text given to didOpen for documents that are not part of the project (positions above)
+NONPROJ_TEXT = ("entity outside is\nend entity;\n\narchitecture a of outside is\n  signal s : bit;\nbegin\n"
+                "  s <= '1';\nend architecture;\n")
+NONPROJ_URIS = ["file://%s/outside.vhd" % WS, "file://%s/new_file.vhd" % WS, "file:///nonexistent/dir/zz.vhd",
+                "file:rel/x.vhd"]
+DOC_REQS = ["textDocument/declaration", "textDocument/definition", "textDocument/typeDefinition",
+            "textDocument/implementation", "textDocument/rename", "textDocument/prepareRename",
+            "textDocument/documentSymbol", "textDocument/documentHighlight", "textDocument/hover",
+            "textDocument/references", "textDocument/completion", "textDocument/semanticTokens/full",
+            "textDocument/semanticTokens/range"]
+RELOADS = ["workspace/didCreateFiles", "workspace/didRenameFiles", "workspace/didDeleteFiles",
+           "workspace/didChangeWatchedFiles"]
+
+
+def toml_variants(dropped):
+    keep = [f for f in PROJECT_FILES if f != dropped]
+    q = lambda fs: "[" + ", ".join('"%s"' % f for f in fs) + "]"
+    return {
+        "drop-one": "[libraries]\nlib.files = %s\n" % q(keep),
+        "no-files": "[libraries]\nlib.files = []\n",
+        "no-libraries": "[libraries]\n",
+        "only-outside": '[libraries]\nother.files = ["outside.vhd"]\n',
+        "two-libraries": "[libraries]\nlib.files = %s\nlib2.files = %s\n" % (q(keep), q(keep[:1] + ["outside.vhd"])),
+        "invalid-toml": "[libraries\nlib.files = 5\n",
+        "missing-file-listed": '[libraries]\nlib.files = ["a.vhd", "does_not_exist.vhd"]\n',
+        "unchanged": FILES["vhdl_ls.toml"],
+        "deleted": None,
+    }
 TEXTS = ["", "x", "\n", "entity e2 is\nend entity;\n", "signal \u00e9 : bit;\r\n", "\U0001F600", "a\rb", ";\n;",
          "architecture z of ent is begin end;", "package p2 is end package;\n", "-- c\n", "end", "\t(", "'"]
 
@@ -276,7 +308,11 @@ class Gen:
     # ---- atoms
     def uri(self, kind=None):
         r = self.r
-        kind = kind or r.choice(["proj"] * 6 + ["ws", "nonfile", "odd", "unparsable"])
+        kind = kind or r.choice(["proj"] * 6 + ["ws", "nonfile", "odd", "unparsable"] + ["opened"] * 3)
+        if kind == "opened":
+            if self.opened:
+                return r.choice(sorted(self.opened))
+            kind = "proj"
         if kind == "proj":
             return "file://%s/%s" % (WS, r.choice(PROJECT_FILES))
         if kind == "ws":
@@ -346,29 +382,29 @@ class Gen:
         return p
 
     # ---- valid parameters
-    def req_params(self, m):
+    def req_params(self, m, uri=None):
         r = self.r
         if m in ("textDocument/declaration", "textDocument/definition", "textDocument/typeDefinition",
                  "textDocument/implementation", "textDocument/documentHighlight", "textDocument/hover",
                  "textDocument/prepareRename"):
-            return self.tdpp()
+            return self.tdpp(uri)
         if m == "textDocument/rename":
-            p = self.tdpp()
+            p = self.tdpp(uri)
             p["newName"] = r.choice(["renamed", "", "x y", "\u00e9", "entity", "a" * 300])
             return p
         if m == "workspace/symbol":
             return {"query": r.choice(["", "ent", "pkg", "st", "clk", "zzzz", "\u00e4", "a" * 200, "+", "'a'", "*"])}
         if m in ("textDocument/documentSymbol", "textDocument/semanticTokens/full"):
-            return {"textDocument": {"uri": self.uri()}}
+            return {"textDocument": {"uri": uri or self.uri()}}
         if m == "textDocument/semanticTokens/range":
-            u = self.uri()
+            u = uri or self.uri()
             return {"textDocument": {"uri": u}, "range": self.range(u)}
         if m == "textDocument/references":
-            p = self.tdpp()
+            p = self.tdpp(uri)
             p["context"] = {"includeDeclaration": r.choice([True, False])}
             return p
         if m == "textDocument/completion":
-            p = self.tdpp()
+            p = self.tdpp(uri)
             c = r.random()
             if c < 0.3:
                 p["context"] = {"triggerKind": r.choice([1, 2, 3, 99, -1])}
@@ -400,8 +436,10 @@ class Gen:
     def note_params(self, m):
         r = self.r
         if m == "textDocument/didOpen":
-            u = self.uri(r.choice(["proj", "proj", "ws", "nonfile", "odd"]))
-            text = r.choice(TEXTS + [FILES["a.vhd"], FILES["b.vhd"], FILES["err.vhd"]])
+            u = self.uri(r.choice(["proj", "proj", "ws", "ws", "nonfile", "odd"]))
+            text = r.choice(TEXTS + [FILES["a.vhd"], FILES["b.vhd"], FILES["err.vhd"], NONPROJ_TEXT, NONPROJ_TEXT])
+            if url_ok(u):
+                self.opened.add(u)
             return {"textDocument": {"uri": u, "languageId": "vhdl", "version": r.randrange(-3, 100), "text": text}}
         if m == "textDocument/didChange":
             u = self.uri(r.choice(["proj", "proj", "proj", "ws", "nonfile", "odd"]))
@@ -542,6 +580,86 @@ class Gen:
     def session(self, n):
         return [self.message() for _ in range(n)]
 
+    # ---- histories: documents the server remembers, a project reload, then every request kind on them
+    def did_open(self, uri, text):
+        self.opened.add(uri)
+        return {"jsonrpc": "2.0", "method": "textDocument/didOpen",
+                "params": {"textDocument": {"uri": uri, "languageId": "vhdl", "version": 1, "text": text}}}
+
+    def reload(self, kind=None):
+        r = self.r
+        kind = kind or r.choice(RELOADS)
+        if kind == "workspace/didChangeWatchedFiles":
+            p = {"changes": [{"uri": "file://%s/vhdl_ls.toml" % WS, "type": r.choice([1, 2, 3])}]}
+        elif kind == "workspace/didRenameFiles":
+            p = {"files": r.choice([[], [{"oldUri": "file://%s/a.vhd" % WS, "newUri": "file://%s/c.vhd" % WS}]])}
+        else:
+            p = {"files": r.choice([[], [{"uri": "file://%s/new_file.vhd" % WS}], [{"uri": "whatever"}]])}
+        return {"jsonrpc": "2.0", "method": kind, "params": p}
+
+    def sweep(self, uri, methods=None):
+        """every document request kind (valid parameters, mostly on identifiers) on one document"""
+        r = self.r
+        ms = list(methods or DOC_REQS)
+        r.shuffle(ms)
+        out = []
+        for m in ms:
+            p = self.req_params(m, uri)
+            if "position" in p and r.random() < 0.8:
+                name = uri.rsplit("/", 1)[-1]
+                l, ch = r.choice(GOOD_POS.get(name, [(0, 8)]))
+                p["position"] = {"line": l, "character": ch}
+            out.append({"jsonrpc": "2.0", "id": self.new_id(), "method": m, "params": p})
+        return out
+
+    def history_session(self):
+        r = self.r
+        msgs = []
+        proj = "file://%s/%s" % (WS, r.choice(PROJECT_FILES))
+        dropped = r.choice(PROJECT_FILES)
+        dropped_uri = "file://%s/%s" % (WS, dropped)
+        nonproj = r.choice(NONPROJ_URIS)
+        docs = [proj, nonproj, dropped_uri]
+        # (1) documents the server remembers
+        msgs.append(self.did_open(nonproj, NONPROJ_TEXT))
+        if r.random() < 0.5:
+            msgs.append(self.did_open(dropped_uri, FILES[dropped]))
+        if r.random() < 0.3:
+            other = r.choice(NONPROJ_URIS)
+            msgs.append(self.did_open(other, r.choice([NONPROJ_TEXT, "", "package q is end package;\n"])))
+            docs.append(other)
+        msgs += [self.message() for _ in range(r.randrange(0, 4))]
+        if r.random() < 0.4:
+            msgs += self.sweep(r.choice(docs), r.sample(DOC_REQS, 4))
+        for round_no in range(r.choice([1, 1, 2])):
+            # (2) the configuration changes on disk (or not) and the project is reloaded
+            variants = toml_variants(dropped)
+            v = r.choice(sorted(variants)) if round_no == 0 else r.choice(["unchanged", "drop-one", "deleted"])
+            if r.random() < 0.8:
+                msgs.append({"$verif": "write", "file": "vhdl_ls.toml", "text": variants[v], "variant": v})
+            msgs.append(self.reload())
+            if r.random() < 0.25:
+                msgs.append(self.reload())
+            # (3) every request kind on project, non-project and dropped documents
+            r.shuffle(docs)
+            for u in docs:
+                msgs += self.sweep(u)
+            msgs.append({"jsonrpc": "2.0", "id": self.new_id(), "method": "workspace/symbol",
+                         "params": {"query": r.choice(["", "outside", "ent", "s"])}})
+            msgs.append({"jsonrpc": "2.0", "id": self.new_id(), "method": "completionItem/resolve",
+                         "params": {"label": "x", "data": r.randrange(0, 3000)}})
+            # edits after the reload, then the document requests again
+            if r.random() < 0.6:
+                u = r.choice(docs)
+                msgs.append({"jsonrpc": "2.0", "method": "textDocument/didChange",
+                             "params": {"textDocument": {"uri": u, "version": 5},
+                                        "contentChanges": [{"range": {"start": {"line": 0, "character": 0},
+                                                                      "end": {"line": 0, "character": 0}},
+                                                            "text": r.choice(TEXTS)}]}})
+                msgs += self.sweep(u, r.sample(DOC_REQS, 5))
+            msgs += [self.message() for _ in range(r.randrange(0, 5))]
+        return msgs
+
 
 # ----------------------------------------------------------------------------------------------
 # model side
@@ -554,6 +672,8 @@ def id_token(i):
 
 def classify(msg):
     """-> ('Q', id, method) | ('N', method) | ('R', id) as lsp_server::Message's untagged decoding does."""
+    if "$verif" in msg:
+        return ("A", msg["$verif"])      # an action of the driver (file system), not a message
     if "method" in msg and "id" in msg:
         return ("Q", msg["id"], msg["method"])
     if "method" in msg:
@@ -578,7 +698,7 @@ def model_line(msgs, lenient=True):
             assert SAFE.match(m), m
             d = params_decode(m, msg) if m in SCHEMA else True
             items.append("N,%s,%d" % (m, 1 if d else 0))
-        else:
+        elif c[0] == "R":
             items.append("R,%s" % id_token(c[1]))
     return "%d|*|*|%s" % (1 if lenient else 0, ";".join(items))
 
@@ -606,6 +726,10 @@ CAPS = {"textDocument": {"publishDiagnostics": {"relatedInformation": True},
                          "documentSymbol": {"hierarchicalDocumentSymbolSupport": True},
                          "completion": {"completionItem": {"snippetSupport": True}}},
         "workspace": {"didChangeWatchedFiles": {"dynamicRegistration": True}}}
+
+
+_priv_lock = threading.Lock()
+_priv_count = [0]
 
 
 def subst(v, ws):
@@ -641,6 +765,33 @@ def drive(vbin, ws, msgs, mode, caps_variant=0):
     caps = copy.deepcopy(CAPS)
     if caps_variant == 1:
         caps = {}
+    private = None
+    if any("$verif" in m for m in msgs):
+        # the session changes files: it gets its own copy of the workspace
+        with _priv_lock:
+            _priv_count[0] += 1
+            private = os.path.join(os.path.dirname(ws), "ws_priv", "%d_%d" % (os.getpid(), _priv_count[0]))
+        shutil.rmtree(private, ignore_errors=True)
+        ws = make_workspace(private)
+    try:
+        return _drive(vbin, ws, msgs, mode, caps)
+    finally:
+        if private:
+            shutil.rmtree(private, ignore_errors=True)
+
+
+def act(ws, msg):
+    """Driver action between messages: rewrite / delete a file of the (private) workspace."""
+    path = os.path.join(ws, os.path.basename(msg["file"]))
+    if msg.get("text") is None:
+        if os.path.exists(path):
+            os.remove(path)
+    else:
+        with open(path, "w", encoding="utf-8") as f:
+            f.write(msg["text"])
+
+
+def _drive(vbin, ws, msgs, mode, caps):
     ls = lsp.LS(vbin, ws)
     res = {"responses": [], "died_at": None, "per_step": [], "exit": None, "why": "", "init_failed": False}
     nsync = [0]
@@ -664,6 +815,10 @@ def drive(vbin, ws, msgs, mode, caps_variant=0):
     try:
         if mode == "step":
             for k, msg in enumerate(real):
+                if "$verif" in msg:
+                    act(ws, msg)
+                    res["per_step"].append([])
+                    continue
                 try:
                     ls.send_raw(msg)
                     got = barrier()
@@ -676,9 +831,14 @@ def drive(vbin, ws, msgs, mode, caps_variant=0):
                 res["responses"] += step
         else:
             try:
+                got = []
                 for msg in real:
-                    ls.send_raw(msg)
-                got = barrier()
+                    if "$verif" in msg:
+                        got += barrier()        # everything before the file change must have been processed
+                        act(ws, msg)
+                    else:
+                        ls.send_raw(msg)
+                got += barrier()
                 res["responses"] = [resp_pair(m, nonnull) for m in got]
             except lsp.ServerDied as ex:
                 res["died_at"] = -1
@@ -830,7 +990,7 @@ def coq_cross_check(res, sample):
             elif c[0] == "N":
                 d = params_decode(c[1], msg) if c[1] in SCHEMA else True
                 ms.append("Notification %s %s" % (coq_string(c[1]), "true" if d else "false"))
-            else:
+            elif c[0] == "R":
                 ms.append("Response %s true" % coq_string(id_token(c[1])))
         exp = "; ".join("(%s, %s)" % (coq_string(i), "None" if v == "ok" else "Some (%s)%%Z" % v) for i, v in pairs)
         items.append("([%s], ([%s], %d%%nat))" % ("; ".join(ms), exp, stop))
@@ -898,7 +1058,9 @@ def main(tier, replay=None):
         for k in range(n_sessions):
             g = Gen(seed() * 1000003 + k)
             mode = "pipelined" if k % 4 == 3 else "step"
-            sessions.append({"tag": "gen:%d" % k, "messages": g.session(n_msgs), "mode": mode,
+            hist = k % 5 == 2       # remembered documents, project reload, every request kind on them
+            sessions.append({"tag": "gen:%d%s" % (k, "h" if hist else ""),
+                             "messages": g.history_session() if hist else g.session(n_msgs), "mode": mode,
                              "caps": 1 if k % 7 == 6 else 0})
 
     # model predictions (messages + shutdown + exit)
@@ -912,7 +1074,7 @@ def main(tier, replay=None):
     t0 = _time.time()
     # implementation runs, in parallel
     workers = min(14, max(2, (os.cpu_count() or 4) - 2))
-    stats = {"requests": 0, "notifications": 0, "client_responses": 0, "invalid_params": 0, "method_not_found": 0,
+    stats = {"requests": 0, "notifications": 0, "client_responses": 0, "driver_actions": 0, "history_sessions": 0, "invalid_params": 0, "method_not_found": 0,
              "ok": 0, "ok_with_nonempty_result": 0, "undecodable_notifications": 0, "sessions_step": 0,
              "sessions_pipelined": 0}
     lock = threading.Lock()
@@ -973,9 +1135,11 @@ def main(tier, replay=None):
             pairs = models[i][0]
             stats["ok_with_nonempty_result"] += out.get("nonnull_ok", 0)
             stats["sessions_" + ("step" if s["mode"] == "step" else "pipelined")] += 1
+            if s["tag"].endswith("h") or any("$verif" in m for m in s["messages"]):
+                stats["history_sessions"] += 1
             for msg in s["messages"]:
                 c = classify(msg)
-                stats[{"Q": "requests", "N": "notifications", "R": "client_responses"}[c[0]]] += 1
+                stats[{"Q": "requests", "N": "notifications", "R": "client_responses", "A": "driver_actions"}[c[0]]] += 1
                 if c[0] == "N" and c[1] in SCHEMA and not params_decode(c[1], msg):
                     stats["undecodable_notifications"] += 1
             for _i, v in pairs[:-1]:
